@@ -27,6 +27,10 @@ const STREAM_MARKER: &[u8] = b"__FERROUS_STREAM_MARKER__";
 /// mistaken for one of these two markers; dropped again when loading
 const LIST_ESCAPE: &[u8] = b"__FERROUS_LIST_ESCAPE__";
 
+/// Stands in for the field count of a stream entry that only records the last ID
+/// the stream generated (its entry was deleted or trimmed away)
+const STREAM_TOMBSTONE: &[u8] = b"tombstone";
+
 /// True when a list must be written with the escape element in front
 fn list_needs_escape(first: Option<&Vec<u8>>) -> bool {
     matches!(first, Some(e) if e.as_slice() == STREAM_MARKER || e.as_slice() == LIST_ESCAPE)
@@ -675,11 +679,20 @@ impl<W: Write> RdbWriter<W> {
                 );
                 
                 let entries = &range_result.entries;
+                // The last ID the stream generated outlives the entry that carried it
+                // (XDEL, XTRIM): it is saved as a trailing tombstone, so that IDs keep
+                // increasing after a reload
+                let last_generated = stream.last_generated_id();
+                let tombstone = last_generated > crate::storage::stream::StreamId::min()
+                    && entries.last().map_or(true, |e| e.id < last_generated);
                 // Calculate total number of items to write
                 let mut total_items = 1; // +1 for the stream marker
                 for entry in entries {
                     total_items += 2; // ID string + field count string
                     total_items += entry.fields.len() * 2; // field-value pairs
+                }
+                if tombstone {
+                    total_items += 2; // ID string + tombstone marker
                 }
                 self.write_length(total_items)?;
                 
@@ -701,6 +714,10 @@ impl<W: Write> RdbWriter<W> {
                         self.write_string(field)?;
                         self.write_string(value)?;
                     }
+                }
+                if tombstone {
+                    self.write_string(last_generated.to_string().as_bytes())?;
+                    self.write_string(STREAM_TOMBSTONE)?;
                 }
             }
             Value::List(list) => {
@@ -988,8 +1005,8 @@ impl<R: Read> RdbReader<R> {
                         let mut entry_idx = 0;
                         
                         while entry_idx < remaining_count {
-                            if entry_idx + 2 >= remaining_count {
-                                break; // Not enough data for a complete entry
+                            if entry_idx + 2 > remaining_count {
+                                break; // Not enough data for an ID and a field count
                             }
                             
                             // Read entry ID
@@ -999,6 +1016,19 @@ impl<R: Read> RdbReader<R> {
                             // Read field count
                             let field_count_str = self.read_string()?;
                             entry_idx += 1;
+                            
+                            if field_count_str == STREAM_TOMBSTONE {
+                                // An ID the stream generated whose entry is gone: adding and
+                                // deleting it again restores the stream's last ID
+                                if let Some(stream_id) = crate::storage::stream::StreamId::from_string(
+                                    std::str::from_utf8(&id_str).unwrap_or("")
+                                ) {
+                                    if storage.xadd_with_id(db, key.clone(), stream_id, HashMap::new()).is_ok() {
+                                        let _ = storage.xdel(db, &key, vec![stream_id]);
+                                    }
+                                }
+                                continue;
+                            }
                             
                             let field_count: usize = match std::str::from_utf8(&field_count_str) {
                                 Ok(s) => s.parse().unwrap_or(0),
